@@ -1,2 +1,47 @@
-"""Concretisation of counter-models into real objects, and native evaluation against the real code."""
-BUILDERS = {}
+"""Native meanings of the uninterpreted functions used in contract clauses, for the generic native replay
+(pyvc/native_replay.py, run under /venv/bin/python -- no z3 import here)."""
+import contextlib
+from pathlib import Path
+
+BUILDERS = {}   # fid -> callable(replay) -> result dict, for functions that need a bespoke harness
+PATCHES = {}    # fid -> context-manager factory (replay, builder, args) patching assumed externals with the model's values
+
+
+class _Und(Exception):
+    pass
+
+
+def _undecidable(name):
+    def f(*a):
+        from pyvc.native_replay import Undecidable
+        raise Undecidable("uninterpreted function %s has no native meaning" % name)
+    return f
+
+
+def natives(rp, builder):
+    mods = rp.get("modules") or []
+    n = {}
+    if "config" in mods:
+        n.update({"num_of": float, "py_str": str, "path_norm": lambda s: str(Path(s)), "path_expand": lambda s: str(Path(s).expanduser()),
+                  "path_join": lambda a, b: str(Path(a).joinpath(b)), "dump_of": lambda o: o.to_dict(),
+                  "storage_created": _undecidable("storage_created"), "runner_created": _undecidable("runner_created"),
+                  "instantiate": lambda c, cfg: _undecidable("instantiate")(), "codec_of": _undecidable("codec_of"),
+                  "DEFAULT_STORAGE_CONFIG_": lambda: {}, "DEFAULT_RUNNER_CONFIG_": lambda: {}})
+    if "memory_cache" in mods or "storage" in mods or "codec" in mods or "nullbackends" in mods:
+        n.update({"absval": lambda x: x})
+    return n
+
+
+@contextlib.contextmanager
+def _stub_codec_create(rp, builder, args):
+    """Codec.create is an assumed external in the C18 contracts (codec selection is outside the option list): the replay
+    substitutes a placeholder codec for it, as the proof does."""
+    from unittest import mock
+    from twosigma.memento import storage_base
+    with mock.patch.object(storage_base.Codec, "create", classmethod(lambda cls, codec_type, config=None: ("codec", codec_type))):
+        builder.notes.append("Codec.create stubbed (assumed external in this contract)")
+        yield
+
+
+PATCHES["storage_filesystem:FilesystemStorageBackend.__init__"] = _stub_codec_create
+PATCHES["storage_base:StorageBackendBase.__init__"] = _stub_codec_create
